@@ -238,3 +238,235 @@ pub fn signal_at_idle() -> PlanEvent {
 pub fn invocation(rng: &mut Rng, args: Vec<String>, plan: Plan) -> Invocation {
     Invocation { entry: 0, args, hash_seed: rng.below(1 << 30) as u64 + 1, plan, side: 0 }
 }
+
+// ------------------------------------------------------------------ projects with rich resources
+
+#[derive(Clone, Debug)]
+pub struct IoOpts {
+    pub multi_project_pct: usize,
+    pub max_targets: usize,
+    pub cmd_pct: usize,
+}
+
+impl Default for IoOpts {
+    fn default() -> Self {
+        IoOpts { multi_project_pct: 40, max_targets: 5, cmd_pct: 25 }
+    }
+}
+
+fn big_content(rng: &mut Rng, tag: &str) -> String {
+    let n = rng.range(1100, 3000);
+    let mut s = format!("{} ", tag);
+    while s.len() < n {
+        s.push((b'a' + (rng.below(26) as u8)) as char);
+    }
+    s
+}
+
+/// 1–3 projects of build targets (plus the odd service/aggregate) with varied resource
+/// declarations: single files, directories with nested files and extension filters, files
+/// larger than one read buffer, command resources, outputs as files / filtered directories /
+/// commands, `X.output` chains within and across projects, names and relative paths reused
+/// across projects. Race-free: a file is written by at most one target and a target's declared
+/// inputs are its own sources plus outputs of its producers.
+pub fn gen_io(rng: &mut Rng, o: &IoOpts) -> Scenario {
+    let np = if rng.chance(o.multi_project_pct) { rng.range(2, 3) } else { 1 };
+    let mut projects: Vec<Project> = vec![];
+    let pnames = ["root", "lib", "util"];
+    let layout = rng.below(3); // 0: siblings, 1: nested, 2: chain of imports
+    for pi in 0..np {
+        let dir = match (pi, layout) {
+            (0, _) => "p0".to_string(),
+            (1, 1) => "p0/lib".to_string(),
+            (2, 1) => "p0/lib/util".to_string(),
+            (i, _) => format!("p{}", i),
+        };
+        let name = if pi == 0 { if rng.chance(50) { Some(pnames[0].to_string()) } else { None } } else { Some(pnames[pi].to_string()) };
+        projects.push(Project { dir, name, imports: vec![], targets: vec![], raw_yaml: None });
+    }
+    // imports: root imports everything it references directly; chain layout: p0 -> p1 -> p2
+    if np >= 2 {
+        projects[0].imports.push((pnames[1].into(), 1));
+    }
+    if np == 3 {
+        if layout == 2 || rng.chance(50) {
+            projects[1].imports.push((pnames[2].into(), 2));
+        } else {
+            projects[0].imports.push((pnames[2].into(), 2));
+        }
+        if rng.chance(30) && !projects[0].imports.iter().any(|i| i.1 == 2) {
+            projects[0].imports.push((pnames[2].into(), 2));
+        }
+    }
+    // which projects can reference which (through the import relation, transitively loaded)
+    let can_ref = |from: usize, to: usize, projects: &Vec<Project>| -> bool { from == to || projects[from].imports.iter().any(|i| i.1 == to) || (from == 0 && projects.iter().any(|_| true) && to > 0) };
+    let total = rng.range(2, o.max_targets.max(2));
+    let mut files: Vec<FileSpec> = vec![];
+    let mut vars = BTreeMap::new();
+    // targets are created bottom-up: later targets may consume earlier ones; higher projects
+    // consume lower ones. order of creation: from the deepest project to the root.
+    let mut created: Vec<(usize, String)> = vec![];
+    for k in 0..total {
+        let pi = if np == 1 { 0 } else { (np - 1) - (k * np / total).min(np - 1) };
+        // reuse target names across projects on purpose
+        let name = format!("t{}", projects[pi].targets.len());
+        let kind = match rng.weighted(&[88, 6, 6]) {
+            1 => Kind::Service,
+            2 => Kind::Aggregate,
+            _ => Kind::Build,
+        };
+        let mut t = Target::new(&name, kind);
+        let pdir = projects[pi].dir.clone();
+        // dependencies on earlier targets
+        let cands: Vec<(usize, String)> = created.iter().filter(|c| can_ref(pi, c.0, &projects)).cloned().collect();
+        let ndeps = if cands.is_empty() { 0 } else { rng.weighted(&[30, 45, 20, 5]) };
+        let mut chosen: Vec<(usize, String)> = vec![];
+        for _ in 0..ndeps {
+            let c = rng.pick(&cands).clone();
+            if !chosen.contains(&c) {
+                chosen.push(c);
+            }
+        }
+        for c in chosen {
+            let prod_kind = projects[c.0].targets.iter().find(|x| x.name == c.1).map(|x| x.kind).unwrap_or(Kind::Build);
+            let (via_dep, via_output) = if prod_kind == Kind::Build && kind != Kind::Aggregate {
+                match rng.weighted(&[20, 55, 25]) {
+                    0 => (true, false),
+                    1 => (false, true),
+                    _ => (true, true),
+                }
+            } else {
+                (true, false)
+            };
+            // cross-project references need the project to be named and imported by `pi`
+            if c.0 != pi && !projects[pi].imports.iter().any(|i| i.1 == c.0) {
+                let key = projects[c.0].name.clone().unwrap();
+                projects[pi].imports.push((key, c.0));
+            }
+            t.deps.push(DepRef { project: c.0, target: c.1.clone(), via_dep, via_output, qualified: c.0 == pi && projects[pi].name.is_some() && rng.chance(20) });
+        }
+        if kind == Kind::Build || kind == Kind::Service {
+            // own sources
+            match rng.weighted(&[30, 30, 15, 25]) {
+                0 => {
+                    let src = format!("src/{}.txt", name);
+                    files.push(FileSpec { path: format!("{}/{}", pdir, src), kind: FileKind::File(format!("{} {} v0\n", pdir, name)) });
+                    t.input.push(Res::Paths { paths: vec![src], extensions: None });
+                }
+                1 => {
+                    let d = format!("src/{}", name);
+                    for f in ["a.c", "b.h", "notes.md", "sub/c.c", "sub/deep/d.c"].iter().take(rng.range(2, 5)) {
+                        files.push(FileSpec { path: format!("{}/{}/{}", pdir, d, f), kind: FileKind::File(format!("{} {} {} v0\n", pdir, name, f)) });
+                    }
+                    if rng.chance(25) {
+                        files.push(FileSpec { path: format!("{}/{}/.zinoma/planted.c", pdir, d), kind: FileKind::File("planted\n".into()) });
+                    }
+                    let ext = match rng.weighted(&[40, 25, 20, 15]) {
+                        0 => None,
+                        1 => Some(vec!["c".to_string(), ".h".to_string()]),
+                        2 => Some(vec![".c".to_string(), "".to_string()]),
+                        _ => Some(vec![]),
+                    };
+                    t.input.push(Res::Paths { paths: vec![d], extensions: ext });
+                }
+                2 => {
+                    let src = format!("src/{}.bin", name);
+                    files.push(FileSpec { path: format!("{}/{}", pdir, src), kind: FileKind::File(big_content(rng, &name)) });
+                    t.input.push(Res::Paths { paths: vec![src], extensions: None });
+                }
+                _ => {}
+            }
+            if rng.chance(o.cmd_pct) {
+                // the same command text in every project directory, different values per directory
+                let key = if rng.chance(60) { "ver".to_string() } else { format!("k{}", name) };
+                vars.insert(format!("{}__{}", pdir.replace('/', "+"), key), format!("{} {} 1\n", pdir, key));
+                t.input.push(Res::Cmd { key });
+            }
+        }
+        if kind == Kind::Build {
+            match rng.weighted(&[50, 25, 10, 15]) {
+                0 => {
+                    let out = format!("out/{}.out", name);
+                    t.output.push(Res::Paths { paths: vec![out.clone()], extensions: None });
+                    t.writes.push(out);
+                }
+                1 => {
+                    let d = format!("out/{}", name);
+                    t.writes.push(format!("{}/x.o", d));
+                    t.writes.push(format!("{}/sub/y.o", d));
+                    t.writes.push(format!("{}/log.txt", d));
+                    let ext = if rng.chance(70) { Some(vec!["o".to_string()]) } else { None };
+                    t.output.push(Res::Paths { paths: vec![d], extensions: ext });
+                }
+                2 => {
+                    let key = "ver".to_string();
+                    vars.entry(format!("{}__{}", pdir.replace('/', "+"), key)).or_insert_with(|| format!("{} out 1\n", pdir));
+                    t.output.push(Res::Cmd { key });
+                    let out = format!("out/{}.out", name);
+                    t.output.push(Res::Paths { paths: vec![out.clone()], extensions: None });
+                    t.writes.push(out);
+                }
+                _ => {}
+            }
+            if rng.chance(15) {
+                t.size = rng.range(1200, 2500);
+            }
+        }
+        created.push((pi, name));
+        projects[pi].targets.push(t);
+    }
+    for p in &projects {
+        files.push(FileSpec { path: format!("{}/out", p.dir), kind: FileKind::Dir });
+    }
+    Scenario { label: format!("io-{}proj-layout{}", np, layout), projects, files, vars, steps: vec![] }
+}
+
+/// Requests for multi-project scenarios, relative to the entry project.
+pub fn gen_request_io(rng: &mut Rng, sc: &Scenario, entry: usize) -> Vec<String> {
+    // targets reachable by name from `entry`: its own (bare or qualified) and, from the root,
+    // every loaded project's (qualified)
+    let mut names: Vec<String> = vec![];
+    for t in &sc.projects[entry].targets {
+        match &sc.projects[entry].name {
+            Some(n) if rng.chance(35) => names.push(format!("{}::{}", n, t.name)),
+            _ => names.push(t.name.clone()),
+        }
+    }
+    let loaded = loaded_projects(sc, entry);
+    for &pi in &loaded {
+        if pi != entry {
+            if let Some(n) = &sc.projects[pi].name {
+                for t in &sc.projects[pi].targets {
+                    names.push(format!("{}::{}", n, t.name));
+                }
+            }
+        }
+    }
+    if names.is_empty() {
+        return vec![];
+    }
+    let k = rng.weighted(&[45, 35, 20]) + 1;
+    let mut out = vec![];
+    for _ in 0..k {
+        let n = rng.pick(&names).clone();
+        if !out.contains(&n) {
+            out.push(n);
+        }
+    }
+    out
+}
+
+pub fn loaded_projects(sc: &Scenario, entry: usize) -> Vec<usize> {
+    let mut seen = vec![entry];
+    let mut i = 0;
+    while i < seen.len() {
+        let p = seen[i];
+        for (_, q) in &sc.projects[p].imports {
+            if !seen.contains(q) {
+                seen.push(*q);
+            }
+        }
+        i += 1;
+    }
+    seen
+}
